@@ -100,7 +100,7 @@ impl Property for C17 {
         vec!["only bits 0-4 of the ULA read are compared here (EAR bit 6 belongs to C07/C11)", "mouse wheel and X/Y are compared as deltas from the first read (mod 16 / mod 256)"]
     }
     fn expected_probes(&self) -> Vec<&'static str> {
-        vec!["overlap_two_sources", "release_unheld", "double_press", "caps_kept_by_other_compound", "multi_row_selector", "mouse_extreme_delta", "kempston_read", "mouse_read", "machine_without_embedded_rom", "host_action_between_events", "tape_inserted_with_autoload"]
+        vec!["overlap_two_sources", "release_unheld", "double_press", "caps_kept_by_other_compound", "multi_row_selector", "mouse_extreme_delta", "kempston_read", "mouse_read", "machine_without_embedded_rom", "host_action_between_events", "tape_inserted_with_autoload", "other_instances_alive", "scenario_in_a_process_of_its_own"]
     }
 
     fn gen(&self, rng: &mut Rng, tier: Tier, idx: u64) -> Scenario {
@@ -109,6 +109,12 @@ impl Property for C17 {
         sc.set("mouse", rng.chance(3, 4) as i64);
         sc.set("kempston", rng.chance(7, 8) as i64);
         sc.set("no_rom", rng.chance(1, 4) as i64);
+        sc.set("others", if rng.chance(1, 4) { rng.range(1, 1000) } else { 0 });
+        sc.set("fresh", (idx % 1000 == 333) as i64);
+        if idx % 1000 == 333 {
+            sc.set("kempston", 1);
+            sc.set("mouse", 1);
+        }
         sc.set("autoload", rng.chance(1, 2) as i64);
         let host_actions = rng.chance(1, 3);
         let avoid_known = idx % 4 == 3;
@@ -214,6 +220,40 @@ impl Property for C17 {
             ctx.probe("machine_without_embedded_rom");
         }
         let cfg = MCfg { m128, kempston: kemp, mouse, rom: !no_rom, autoload, ..Default::default() };
+        // other emulator instances in the same process are other machines: one without any input device that has
+        // polled the device ports before this one was built, and one with all devices whose user holds other
+        // controls while this one runs
+        if sc.get("fresh") != 0 {
+            // (in a process of its own, so that the device-less machine really is the first to touch the ports)
+            ctx.probe("scenario_in_a_process_of_its_own");
+            let mut child = sc.clone();
+            child.set("fresh", 0);
+            if child.get("others") == 0 {
+                child.set("others", 77);
+            }
+            let r = crate::runner::run_in_fresh_process("C17", &child).map_err(|x| Fail::new("C17.harness_fresh_process", "", x))?;
+            if let Some((site, witness, detail)) = r.fails.into_iter().next() {
+                return Err(Fail::new(&site, &format!("{},own_process=1", witness), format!("in a process of its own, after a machine without input devices polled the ports: {}", detail)));
+            }
+            return Ok(());
+        }
+        let others = sc.get("others") != 0;
+        let mut other: Option<Emu> = None;
+        if others {
+            ctx.probe("other_instances_alive");
+            let mut bare = new_emu(&MCfg { m128: !m128, ..Default::default() });
+            write_mem(&mut bare, 0x8000, &[0xED, 0x78]);
+            for port in [0x001Fu16, 0xFADF, 0xFBDF, 0xFFDF, 0x7FFE, 0x00DF] {
+                let _ = cpu_in(&mut bare, port)?;
+            }
+            let mut o = new_emu(&MCfg { m128, kempston: true, mouse: true, ..Default::default() });
+            o.send_kempston_key(KEMPSTON[(sc.get("others") as usize) % 8], true);
+            o.send_kempston_key(KEMPSTON[(sc.get("others") as usize / 8) % 8], true);
+            o.send_mouse_button(MOUSE_BUTTONS[(sc.get("others") as usize) % 4], true);
+            o.send_mouse_pos_diff(33, -77);
+            o.send_key(KEYS[(sc.get("others") as usize) % 40], true);
+            other = Some(o);
+        }
         let mut e = new_emu(&cfg);
         write_mem(&mut e, 0x8000, &[0xED, 0x78]); // IN A,(C)
         let mut m = RefInputs::default();
@@ -223,6 +263,14 @@ impl Property for C17 {
             match op.k.as_str() {
                 "ev" => {
                     let (kind, a, b) = (op.arg(0), op.arg(1), op.arg(2));
+                    if let Some(o) = other.as_mut() {
+                        // the other machine's user is busy too
+                        if (a + b + kind) % 3 == 0 {
+                            o.send_kempston_key(KEMPSTON[(a.rem_euclid(8)) as usize], b != 0);
+                            o.send_mouse_pos_diff((a % 100) as i8, (b % 50) as i8);
+                            o.send_mouse_button(MOUSE_BUTTONS[(a.rem_euclid(4)) as usize], b == 0);
+                        }
+                    }
                     let pressed = b != 0;
                     match kind {
                         0 => {
